@@ -380,7 +380,7 @@ func visitInstr(fr *frame, instr ssa.Instruction) continuation {
 			panic(engineError(fmt.Sprintf("unexpected x type in IndexAddr: %T", x)))
 		}
 		if s, ok := idx.(sym); ok {
-			i.boundsCheck(s, len(elems))
+			i.boundsCheck(s, len(elems), fr)
 			if scalarElems(elems) && len(elems) <= 256 {
 				fr.env[instr] = &symptr{elems: elems, idx: s}
 				break
@@ -399,7 +399,7 @@ func visitInstr(fr *frame, instr ssa.Instruction) continuation {
 		switch x := x.(type) {
 		case array:
 			if s, ok := idx.(sym); ok {
-				i.boundsCheck(s, len(x))
+				i.boundsCheck(s, len(x), fr)
 				fr.env[instr] = i.selectElem(x, s)
 				break
 			}
@@ -411,7 +411,7 @@ func visitInstr(fr *frame, instr ssa.Instruction) continuation {
 		case string, *symstr:
 			n := strLen(x)
 			if s, ok := idx.(sym); ok {
-				i.boundsCheck(s, n)
+				i.boundsCheck(s, n, fr)
 				fr.env[instr] = i.selectElem(strBytesView(x), s)
 				break
 			}
@@ -497,13 +497,25 @@ func scalarElems(e []value) bool {
 }
 
 // boundsCheck forks on idx out of [0,n) and raises the Go panic on that side.
-func (i *interpreter) boundsCheck(idx sym, n int) {
+func (i *interpreter) boundsCheck(idx sym, n int, fr *frame) {
 	var inb *Term
 	w := idx.t.w
+	if w < 64 && uint64(n) > mask(w) && !kindSigned(idx.k) {
+		return // every value of an unsigned w-bit index is in range
+	}
+	if w < 64 && kindSigned(idx.k) {
+		// widen so that the length is representable; negative values are out of range
+		idx = sym{i.tc.SExt(64, idx.t), types.Int64}
+		w = 64
+	}
 	// unsigned comparison covers negative values of signed kinds too
 	inb = i.tc.Cmp("bvult", idx.t, i.tc.Const(w, uint64(n)))
 	if !i.decide(inb, "bounds") {
-		panic(targetRuntimeError(fmt.Sprintf("index out of range [sym] with length %d", n)))
+		where := ""
+		if fr != nil && os.Getenv("VX_DEBUG") != "" {
+			where = " in " + fr.fn.String() + " idx=" + idx.t.String()
+		}
+		panic(targetRuntimeError(fmt.Sprintf("index out of range [sym] with length %d%s", n, where)))
 	}
 }
 
